@@ -8,8 +8,8 @@ from . import ast_nodes, xltypes
 
 class EvaluatorContext(ast_nodes.EvalContext):
 
-    def __init__(self, evaluator, ref):
-        super().__init__(evaluator.namespace, ref)
+    def __init__(self, evaluator, ref, seen=None):
+        super().__init__(evaluator.namespace, ref, seen)
         self.evaluator = evaluator
 
     @property
@@ -22,13 +22,15 @@ class EvaluatorContext(ast_nodes.EvalContext):
 
     @lru_cache(maxsize=None)
     def eval_cell(self, addr):
-        # Check for a cycle.
-        if addr in self.seen:
+        # Check for a cycle. `seen` is the chain of cells whose evaluation
+        # led to the cell of this context.
+        chain = self.seen + [self.ref]
+        if addr in chain:
             raise RuntimeError(
-                f'Cycle detected for {addr}:\n- ' + '\n- '.join(self.seen))
-        self.seen.append(addr)
+                f'Cycle detected for {addr}:\n- ' + '\n- '.join(chain))
 
-        return self.evaluator.evaluate(addr, None)
+        return self.evaluator.evaluate(
+            addr, EvaluatorContext(self.evaluator, addr, chain))
 
 
 class Evaluator:
@@ -88,7 +90,7 @@ class Evaluator:
         except Exception as err:
             raise RuntimeError(
                 f"Problem evaluating cell {addr} formula "
-                f"{cell.formula.formula}: {repr(err)}"
+                f"{cell.formula.formula}: {type(err).__name__}: {err}"
             ).with_traceback(sys.exc_info()[2])
 
         # 4. Update the cell value.
